@@ -60,6 +60,14 @@ Oracle, when `blocking_flush` returned true (otherwise the scenario is inconclus
    `emit` returned before the call is in a request whose acknowledgement the collector began to write before
    the flush returned (`C12:flush-true-before-acknowledgement:...`). A flush that returns false is never judged.
 
+A sixth family (`run_mixed`) gives every signal of ONE instance its own encoding (the six non-uniform mixes, plus
+uniform HTTP and gRPC) and a non-trivial resource, against endpoints that validate each request for its content
+type - body and the resource of every Resource* element - and answer 400 / grpc-status 3 to a malformed one
+(`C12:malformed-request:resource|body:mixed-encodings:<signal>=<encoding>`); its burst contains events that carry
+`evt_kind` span / metric but that signal declines (point / no extent; missing / textual / boolean / nested
+`metric_value`): accepted by the emitter, they must be in an acknowledged request when flush returns true
+(`C12:event-not-acknowledged-at-flush:<transport>:in-no-request:declined-by-its-kinds-signal`).
+
 No verdict depends on a deadline: the waits are watchdogs that make the scenario inconclusive.
 */
 
@@ -1900,6 +1908,336 @@ fn run_flush_sequence(r: &mut Report, seed: u64, case: u64) {
 }
 
 /// Run-level judgement of "2xx head, then a graceful close" (see `run`): sent again after every single one.
+// ---------------------------------------------------------------------------
+// sixth family: per-signal encodings + a non-trivial resource against a VALIDATING collector, and events
+// that the signal of their kind declines
+// ---------------------------------------------------------------------------
+
+const MIXED_VID_BASE: u64 = 12_000_000_000;
+
+#[derive(Clone, Copy, Debug, PartialEq, Eq, Hash)]
+enum MixKind {
+    Log,
+    Span,
+    Metric,
+    /// `evt_kind = span` with a point extent
+    SpanPoint,
+    /// `evt_kind = span` without any extent
+    SpanNoExtent,
+    /// `evt_kind = metric` without `metric_value`
+    MetricNoValue,
+    /// `evt_kind = metric` whose `metric_value` is text / a boolean / a sequence of sequences
+    MetricText,
+    MetricBool,
+    MetricNested,
+}
+
+impl MixKind {
+    const DECLINED: [MixKind; 6] = [MixKind::SpanPoint, MixKind::SpanNoExtent, MixKind::MetricNoValue, MixKind::MetricText, MixKind::MetricBool, MixKind::MetricNested];
+
+    fn name(self) -> &'static str {
+        match self {
+            MixKind::Log => "log",
+            MixKind::Span => "span",
+            MixKind::Metric => "metric",
+            MixKind::SpanPoint => "span-kind:point-extent",
+            MixKind::SpanNoExtent => "span-kind:no-extent",
+            MixKind::MetricNoValue => "metric-kind:no-value",
+            MixKind::MetricText => "metric-kind:text-value",
+            MixKind::MetricBool => "metric-kind:bool-value",
+            MixKind::MetricNested => "metric-kind:nested-sequence-value",
+        }
+    }
+
+    fn declined(self) -> bool {
+        MixKind::DECLINED.contains(&self)
+    }
+
+    /// the signal whose `evt_kind` the event carries
+    fn kinds_signal(self) -> Signal {
+        match self {
+            MixKind::Log => Signal::Logs,
+            MixKind::Span | MixKind::SpanPoint | MixKind::SpanNoExtent => Signal::Traces,
+            _ => Signal::Metrics,
+        }
+    }
+
+    /// where the statement / crate docs send it, given the configured signals (logs is always configured here)
+    fn home(self, subset: u8) -> Signal {
+        if !self.declined() && subset & self.kinds_signal().bit() != 0 {
+            self.kinds_signal()
+        } else {
+            Signal::Logs
+        }
+    }
+}
+
+fn mixed_resource_keys() -> Vec<String> {
+    ["service.name", "run", "debug", "ratio", "tags", "ключ"].iter().map(|s| s.to_string()).collect()
+}
+
+/// json? per signal (logs, traces, metrics)
+fn build_mixed(col: &Collector, grpc: bool, gzip: bool, subset: u8, json: [bool; 3]) -> emit_otlp::Otlp {
+    let tb = |s: Signal| if grpc { emit_otlp::grpc(col.url(s)) } else { emit_otlp::http(col.url(s)) }.allow_compression(gzip);
+    let tags = [1, 2, 3];
+    let resource = [
+        ("service.name", emit::Value::from("c12-é ✓ \"q\"")),
+        ("run", emit::Value::from(12)),
+        ("debug", emit::Value::from(true)),
+        ("ratio", emit::Value::from(0.5)),
+        ("tags", emit::Value::from(&tags)),
+        ("ключ", emit::Value::from("значение")),
+    ];
+    let mut b = emit_otlp::new().resource(&resource[..]);
+    if subset & Signal::Logs.bit() != 0 {
+        b = b.logs(if json[0] { emit_otlp::logs_json(tb(Signal::Logs)) } else { emit_otlp::logs_proto(tb(Signal::Logs)) });
+    }
+    if subset & Signal::Traces.bit() != 0 {
+        b = b.traces(if json[1] { emit_otlp::traces_json(tb(Signal::Traces)) } else { emit_otlp::traces_proto(tb(Signal::Traces)) });
+    }
+    if subset & Signal::Metrics.bit() != 0 {
+        b = b.metrics(if json[2] { emit_otlp::metrics_json(tb(Signal::Metrics)) } else { emit_otlp::metrics_proto(tb(Signal::Metrics)) });
+    }
+    b.spawn()
+}
+
+fn emit_mixed(otlp: &emit_otlp::Otlp, vid: u64, kind: MixKind, pad: &str) {
+    use emit::Value;
+    let name = format!("v{}", vid);
+    let tpl = emit::Template::literal_ref(&name);
+    let mdl = emit::Path::new_raw(if vid % 3 == 0 { "verif::c12::a" } else { "verif::c12::b" });
+    let kind_span = emit::Kind::Span;
+    let kind_metric = emit::Kind::Metric;
+    let nested = [[1i64, 2], [3, 4]];
+    let point = emit::Extent::point(ts(vid % 1000, 1));
+    let range = emit::Extent::range(ts(vid % 1000, 1)..ts(vid % 1000 + 1, 2));
+    let mut props: Vec<(&str, Value)> = Vec::new();
+    match kind.kinds_signal() {
+        Signal::Logs => {}
+        Signal::Traces => {
+            props.push(("evt_kind", Value::from_any(&kind_span)));
+            props.push(("trace_id", Value::from("4bf92f3577b34da6a3ce929d0e0e4736")));
+            props.push(("span_id", Value::from("00f067aa0ba902b7")));
+        }
+        Signal::Metrics => {
+            props.push(("evt_kind", Value::from_any(&kind_metric)));
+            props.push(("metric_agg", Value::from("count")));
+            match kind {
+                MixKind::Metric => props.push(("metric_value", Value::from((vid % 97) as i64))),
+                MixKind::MetricText => props.push(("metric_value", Value::from("n/a"))),
+                MixKind::MetricBool => props.push(("metric_value", Value::from(true))),
+                MixKind::MetricNested => props.push(("metric_value", Value::from_serde(&nested))),
+                _ => {}
+            }
+        }
+    }
+    props.push(("vid", Value::from(vid as i64)));
+    props.push(("pad", Value::from(pad)));
+    match kind {
+        MixKind::SpanNoExtent => otlp.emit(emit::Event::new(mdl, tpl, emit::Empty, &props[..])),
+        MixKind::Span => otlp.emit(emit::Event::new(mdl, tpl, range, &props[..])),
+        // metric-kinded events alternate between a point and a range (both are fine for a metric)
+        MixKind::MetricNoValue | MixKind::MetricText if vid % 2 == 0 => otlp.emit(emit::Event::new(mdl, tpl, range, &props[..])),
+        _ => otlp.emit(emit::Event::new(mdl, tpl, point, &props[..])),
+    }
+}
+
+/// One Otlp instance whose signals use DIFFERENT encodings (the six mixes; plus uniform HTTP and gRPC instances
+/// for comparison) with a non-trivial resource, against endpoints that validate every request for its content
+/// type - body AND the resource of every Resource* element - and answer 400 / grpc-status 3 to a malformed one,
+/// like a real collector. The burst mixes ordinary logs / spans / metric samples with events that carry
+/// `evt_kind` span / metric but do not qualify for that signal. Verdicts: a request the collector had to
+/// reject as malformed is a violation in its own right; when flush returns true every event whose home
+/// endpoint rejected nothing is in a request acknowledged before flush returned (declined events included:
+/// accepted by the emitter, they end up as log records). Which endpoint carries a declined event is C14's.
+fn run_mixed(r: &mut Report, seed: u64, case: u64) {
+    r.eval();
+    let mut g = Rng::stream(seed, &[12, 6, case]);
+    let shape = case % 8;
+    let (grpc, json): (bool, [bool; 3]) = match shape {
+        0..=5 => {
+            // the six non-uniform assignments: bits 1..=6 of (logs, traces, metrics)
+            let bits = shape + 1;
+            (false, [bits & 1 != 0, bits & 2 != 0, bits & 4 != 0])
+        }
+        6 => (true, [false; 3]),
+        _ => (false, [(case / 8) % 2 == 0; 3]),
+    };
+    let subset: u8 = if shape <= 5 { 7 } else { [7u8, 3, 5][(case / 8 % 3) as usize] };
+    let gzip = (case / 8 + seed) % 2 == 0;
+    let mixed = json.iter().any(|j| *j != json[0]);
+    let tname = if grpc { "grpc" } else if mixed { "http-mixed" } else if json[0] { "http-json" } else { "http-proto" };
+    let enc = |s: Signal| if grpc { "proto" } else if json[sidx(s)] { "json" } else { "proto" };
+    let configured: Vec<Signal> = Signal::ALL.into_iter().filter(|s| subset & s.bit() != 0).collect();
+    let mix_name = configured.iter().map(|s| format!("{}={}", s.name(), enc(*s))).collect::<Vec<_>>().join("+");
+
+    // ---- the burst ----
+    let n = 18 + g.usize(20);
+    let big_at = if g.chance(1, 3) { Some(g.usize(n)) } else { None };
+    let mut events: Vec<(u64, MixKind, usize)> = Vec::new();
+    for k in 0..n {
+        let kind = if k < MixKind::DECLINED.len() {
+            // every declined shape at least once per scenario
+            MixKind::DECLINED[(k + case as usize) % MixKind::DECLINED.len()]
+        } else {
+            match g.below(10) {
+                0..=1 => MixKind::Log,
+                2..=3 => MixKind::Span,
+                4..=5 => MixKind::Metric,
+                _ => *g.pick(&MixKind::DECLINED),
+            }
+        };
+        let pad = if Some(k) == big_at { MIB + g.usize(MIB / 4) } else if g.chance(1, 6) { 100_000 + g.usize(300_000) } else { g.usize(300) };
+        events.push((MIXED_VID_BASE + case * 10_000 + k as u64, kind, pad));
+    }
+    g.shuffle(&mut events);
+    let max_pad = events.iter().map(|e| e.2).max().unwrap_or(0);
+    let pad_src: String = (0..max_pad).map(|_| (b'a' + g.below(26) as u8) as char).collect();
+
+    let sj = json!({
+        "kind": "mixed-encodings", "seed": seed, "case": case, "transport": tname, "gzip": gzip, "subset": subset_name(subset), "encodings": mix_name,
+        "events": events.iter().map(|(v, k, p)| json!([v, k.name(), p])).collect::<Vec<_>>(),
+    });
+    let case_json = |detail: Json| {
+        let mut j = sj.clone();
+        j["detail"] = detail;
+        j
+    };
+
+    // ---- collector: acknowledges what validates ----
+    let wire = if grpc { Wire::Grpc } else { Wire::Http1 };
+    let col = Collector::start(configured.iter().map(|s| EndpointCfg { signal: *s, wire, listen: true, script: vec![] }).collect());
+    let keys = mixed_resource_keys();
+    for s in &configured {
+        let keys = keys.clone();
+        col.set_validator(*s, std::sync::Arc::new(move |rec: &Record| validate_export_request(rec, &keys)));
+    }
+    let otlp = build_mixed(&col, grpc, gzip, subset, json);
+    for (vid, kind, pad) in &events {
+        emit_mixed(&otlp, *vid, *kind, &pad_src[..*pad]);
+    }
+    let discarded = emitter_metric(&otlp, "event_discarded");
+    let flushed = otlp.blocking_flush(Duration::from_secs(30));
+    let flush_ret = stamp();
+    col.settle();
+    let records = col.records();
+    drop(otlp);
+    r.observe("mixed:requests-recorded", records.len() as u64);
+    r.observe("mixed:events-emitted", events.len() as u64);
+    r.observe(&format!("mixed:scenarios:{}:{}", tname, mix_name), 1);
+
+    // requests from somebody else's emitter (port handed over): a harness matter, never a verdict
+    let known: BTreeSet<u64> = events.iter().map(|e| e.0).collect();
+    if records.iter().filter(|rec| rec.body.is_some()).any(|rec| rec.items().map(|items| items.iter().filter_map(|i| i.vid()).any(|v| !known.contains(&v))).unwrap_or(false)) {
+        r.observe("scenarios-inconclusive", 1);
+        r.observe("scenarios-with-foreign-requests", 1);
+        r.inconclusive("mixed-encodings scenario: a collector received requests that were not sent by its scenario's emitter; scenario not judged");
+        return;
+    }
+
+    // ---- a request the collector had to reject as malformed ----
+    let mut rejecting: BTreeSet<usize> = BTreeSet::new();
+    for rec in &records {
+        // the validator's view must cover the resource of every signal: count what was validated
+        if rec.body.is_some() {
+            r.observe(&format!("mixed:requests-validated:{}={}", rec.endpoint.name(), if rec.is_json() { "json" } else { "proto" }), 1);
+        }
+        if rec.body.is_some() && (rec.is_json() != (enc(rec.endpoint) == "json")) {
+            r.violation(
+                &format!("C12:content-type-not-as-configured:{}:{}={}", if mixed { "mixed-encodings" } else { "uniform-encoding" }, rec.endpoint.name(), enc(rec.endpoint)),
+                &format!("the {} signal is configured for {} but its request says content-type {:?}", rec.endpoint.name(), enc(rec.endpoint), rec.header("content-type")),
+                case_json(rec.brief()),
+            );
+        }
+        let Some(why) = &rec.rejected else { continue };
+        if !rejecting.insert(sidx(rec.endpoint)) {
+            continue;
+        }
+        let part = if why.starts_with("resource:") { "resource" } else { "body" };
+        r.violation(
+            &format!("C12:malformed-request:{}:{}:{}={}", part, if mixed { "mixed-encodings" } else { "uniform-encoding" }, rec.endpoint.name(), enc(rec.endpoint)),
+            &format!(
+                "instance {} ({}): the collector had to reject the {} request as malformed for its content type ({}) - {}",
+                mix_name,
+                tname,
+                rec.endpoint.name(),
+                rec.header("content-type").unwrap_or("?"),
+                why
+            ),
+            case_json(rec.brief()),
+        );
+    }
+
+    if !flushed {
+        r.observe("scenarios-inconclusive", 1);
+        r.inconclusive("mixed-encodings scenario: blocking_flush returned false (30 s)");
+        return;
+    }
+    r.observe("mixed:scenarios-decided", 1);
+
+    // ---- delivery: every accepted event is in a request acknowledged before flush returned ----
+    let mut acked: BTreeSet<u64> = BTreeSet::new();
+    let mut carried: HashMap<u64, Vec<&Record>> = HashMap::new();
+    for rec in &records {
+        if let Ok(items) = rec.items() {
+            for v in items.iter().filter_map(|i| i.vid()) {
+                carried.entry(v).or_default().push(rec);
+                if rec.acked() && rec.responding.map(|t| t < flush_ret).unwrap_or(false) {
+                    acked.insert(v);
+                }
+            }
+        }
+    }
+    let mut reported: BTreeSet<String> = BTreeSet::new();
+    for (vid, kind, pad) in &events {
+        let home = kind.home(subset);
+        if rejecting.contains(&sidx(home)) || (kind.declined() && rejecting.contains(&sidx(kind.kinds_signal()))) {
+            // its endpoint could not acknowledge: the malformed request is the verdict
+            continue;
+        }
+        if failed_attempts(&records, home) > 9 {
+            continue;
+        }
+        if acked.contains(vid) {
+            r.observe(if kind.declined() { "mixed:declined-events-acknowledged" } else { "mixed:ordinary-events-acknowledged" }, 1);
+            if kind.declined() {
+                r.observe(&format!("mixed:declined-acknowledged:{}", kind.name()), 1);
+                r.nontrivial(&("mixed-declined", tname, &mix_name, kind.name()));
+            }
+            continue;
+        }
+        let carriers = carried.get(vid);
+        let how = match carriers {
+            Some(c) if c.iter().any(|rec| rec.acked()) => "acknowledged-only-after-flush-returned".to_string(),
+            Some(c) => format!("only-in-unacknowledged-requests:after={}", c.last().map(|rec| rec.decision.class()).unwrap_or("?")),
+            None => "in-no-request".to_string(),
+        };
+        let class = if kind.declined() { "declined-by-its-kinds-signal" } else { "mixed-encodings-family" };
+        let sig = format!("C12:event-not-acknowledged-at-flush:{}:{}:{}", tname, how, class);
+        if !reported.insert(format!("{}:{}", sig, kind.name())) {
+            continue;
+        }
+        r.violation(
+            &sig,
+            &format!(
+                "instance {}: blocking_flush returned true but event v{} ({}, {} pad bytes), which the emitter accepted{}, is {}; event_discarded counter = {}",
+                mix_name,
+                vid,
+                kind.name(),
+                pad,
+                if kind.declined() { format!(" and which the {} signal declines (so it belongs in a log record)", kind.kinds_signal().name()) } else { String::new() },
+                how.replace('-', " "),
+                discarded
+            ),
+            case_json(json!({"vid": vid, "event_kind": kind.name(), "flush_return": flush_ret, "requests": records.iter().map(|rec| rec.brief()).collect::<Vec<_>>()})),
+        );
+    }
+    if rejecting.is_empty() {
+        r.nontrivial(&("mixed", tname, &mix_name, gzip, big_at.is_some()));
+    }
+    drop(col);
+}
+
 fn judge_ack_then_close(r: &mut Report, min_hits: u64) {
     for t in [Transport::HttpJson, Transport::HttpProto] {
         let hits = r.observed.get(&format!("ack-then-close:hits:{}", t.name())).copied().unwrap_or(0);
@@ -1973,6 +2311,13 @@ fn main() {
             }
             std::process::exit(r.finish());
         }
+        if case.get("kind").and_then(|v| v.as_str()) == Some("mixed-encodings") {
+            for i in 0..3 {
+                run_mixed(&mut r, s, c);
+                r.nontrivial(&("replay-run", i));
+            }
+            std::process::exit(r.finish());
+        }
         if case.get("kind").and_then(|v| v.as_str()) == Some("retry-budget") {
             for i in 0..3 {
                 run_budget(&mut r, s, c, args.thorough());
@@ -2014,6 +2359,12 @@ fn main() {
     // round of 18; outage mode and transport rotate with the case and the seed)
     let n_outage = if only("outage") { args.n(18, 324) } else { 0 };
     spread(&mut r, &args, n_outage, |i, r| run_outage_flush(r, seed, i, divisor, timeout_ms));
+    // per-signal encodings + resource against validating endpoints, with events their kind's signal declines
+    // (6 mixes + gRPC + uniform HTTP per round of 8)
+    let n_mixed = if only("mixed") { args.n(24, 480) } else { 0 };
+    let t_mixed = r.elapsed_s();
+    spread(&mut r, &args, n_mixed, |i, r| run_mixed(r, seed, i));
+    r.set("mixed_section_wall_s", json!(r.elapsed_s() - t_mixed));
     // sequences of flushes on one thread: timed-out flushes, then a long one (3 transports x 1..3 timed-out flushes x
     // where the first short flush's watcher rides x long flush waiting / starting late x other threads flushing = 72).
     // The held / slow requests must outlive the short flushes, not the emitter's request timeout: it is raised for
